@@ -1,7 +1,7 @@
 (* C03 — Encode then Decode is the identity on canonical values, a normal form otherwise. *)
 From Coq Require Import List ZArith NArith Bool.
 From Coq.Strings Require Import Byte.
-From OgRek Require Import Base Value Reader Decoder Encoder Norm Insn EncProg PyVM PyVal PyVM2 EncoderFacts RoundTrip SimFacts LiftFacts ViaPython.
+From OgRek Require Import Base Value Reader Decoder Encoder Norm NormMaps Insn EncProg PyVM PyVal PyVM2 EncoderFacts RoundTrip SimFacts LiftFacts ViaPython RoundTripMaps.
 Import ListNotations.
 
 (* STATUS.  C03_round_trip_partial is the property for every value in the fragment  norm c v = Some t
@@ -12,8 +12,7 @@ Import ListNotations.
    both StrictUnicode settings, both PyDict settings, any prior decoder state, any trailing bytes.
    t says what comes back: the value itself for canonical values, ByteString as string with
    StrictUnicode off, the documented normal form for the rest.  norm is None exactly for: maps,
-   Dicts and structs (heap objects: decided on every run by the correspondence check and the
-   Decode(Encode(v)) oracle), payloads of 2^32 bytes or more in the counted forms, and the inputs on
+   Dicts and structs (heap objects: C03_round_trip_maps below), payloads of 2^32 bytes or more in the counted forms, and the inputs on
    which Encode returns one of its three documented errors.  The protocol-0 float case carries a
    computed side condition (Norm.fmtg_ok): the text Go's %g produced - an oracle dumped from the Go
    runtime - must read back as the same bits. *)
@@ -26,6 +25,49 @@ Theorem C03_round_trip_partial : forall c pd v t st rest,
     erase x = Some t.
 Proof. exact encode_decode. Qed.
 Print Assumptions C03_round_trip_partial.
+
+(* Maps, Dicts and structs, as an equation between Go values.  NormMaps.norm2 c pd g v extends norm to
+   values that hold builtin maps, Dicts and structs (encoded by value) anywhere inside: a map / Dict /
+   struct comes back as the map (PyDict off) or Dict (PyDict on) whose entries are the result of
+   assigning the normal forms of the pairs in iteration order - under Python equality for a Dict
+   (an equal key replaces: int8(1), int64(1), 1.0 and True are one key), under Go interface equality
+   for a builtin map.  norm2 is None where Decode returns the documented error (a Tuple / Call key in
+   a builtin map, an unhashable key), for *big.Int keys of a builtin map (compared by pointer) and
+   for references whose id holds a map.  For every v with norm2 c pd g v = Some cvl, every protocol
+   0..5, both settings, every hook meeting hook_spec (g = TRef without a hook), any prior decoder
+   state with a well-formed heap (heap_bound: true of every state a Decoder reaches - C03_heap_stays_
+   well_formed) and any trailing bytes: Encode succeeds and Decode returns a value whose content read
+   through the decoder's heap is cvl; earlier objects are untouched. *)
+Theorem C03_round_trip_maps : forall c pd load g v cvl st rest,
+  hook_spec load g ->
+  (0 <= e_proto c <= 5)%Z -> norm2 c pd g v = Some cvl -> heap_bound st ->
+  snd (run_w (encode c v) None) = EOk /\
+  exists x st',
+    decode (dcfg_h c pd load) st (output (encode c v) ++ rest) = ((Ok x, st'), rest) /\
+    content (d_heap st') x cvl /\ gext (d_heap st) (d_heap st') /\ heap_bound st'.
+Proof. exact encode_decode_maps. Qed.
+Print Assumptions C03_round_trip_maps.
+
+Theorem C03_heap_stays_well_formed : forall cfg st inp r st' rest,
+  heap_bound st -> decode cfg st inp = ((r, st'), rest) -> heap_bound st'.
+Proof. exact decode_heap_bound. Qed.
+Print Assumptions C03_heap_stays_well_formed.
+
+(* non-vacuity: a struct holding a list of maps with colliding keys, in both modes *)
+Example C03_maps_example :
+  let c := Build_econfig 2 false (fun _ => false) (fun _ => []) in
+  let v := RStruct [SField [x41] true [] (RList [RMap [(RInt 1, RStr SPlain [x61]); (RUint 1, RStr SPlain [x62])];
+                                                    RMap [(RStr SPlain [x6b], RMap [])]])] in
+  norm2 c true TRef v =
+    Some (CDict [(CLeaf (TStr [x41]),
+                  CList [CDict [(CLeaf (TInt 1), CLeaf (TStr [x62]))];
+                         CDict [(CLeaf (TStr [x6b]), CDict [])]])]) /\
+  norm2 c false TRef v =
+    Some (CMap [(CLeaf (TStr [x41]),
+                 CList [CMap [(CLeaf (TInt 1), CLeaf (TStr [x62]))];
+                        CMap [(CLeaf (TStr [x6b]), CMap [])]])]) /\
+  heap_bound init_state.
+Proof. split; [vm_compute; reflexivity|split; [vm_compute; reflexivity|exact heap_bound_init]]. Qed.
 
 (* Maps, Dicts and structs (and everything else the documented type table covers): the round trip
    stated through the documented Python value.  For every Go value v with pyval_of c v = Some x
